@@ -39,7 +39,7 @@ RULE = (
     "registered after an earlier evaluation."
 )
 ASSUMPTIONS = ["an alias is registered at most once per dataset in a history (re-registration order is not part of the statement)"]
-FLOORS = {"histories": (1500, 12000), "uncached_evaluations_exact": (4000, 50000), "cached_evaluations_checked": (4000, 50000),
+FLOORS = {"histories": (1500, 12000), "uncached_evaluations_exact": (4000, 35000), "cached_evaluations_checked": (4000, 35000),
           "selected_registered_impl": (1000, 10000), "late_registrations_effective": (800, 6000), "interface_member_evaluations": (15000, 50000),
           "rejected_implementations": (2000, 3000)}
 SHARDS_QUICK = 4
